@@ -869,6 +869,15 @@ class Summariser:
 
     # ---- control flow
     def s_If(self, node, st):
+        # `if callable(v): try: v = v(context) except H: ...` is `try: if callable(v): v = v(context) except H: ...` (callable() itself raises nothing)
+        t_ = node.test
+        if not node.orelse and len(node.body) == 1 and isinstance(node.body[0], ast.Try) and isinstance(t_, ast.Call) and isinstance(t_.func, ast.Name) \
+                and t_.func.id == "callable" and len(t_.args) == 1 and isinstance(t_.args[0], ast.Name):
+            tr = node.body[0]
+            if len(tr.body) == 1 and isinstance(tr.body[0], ast.Assign) and not tr.orelse and not tr.finalbody:
+                inner = ast.copy_location(ast.If(test=node.test, body=tr.body, orelse=[]), node)
+                outer = ast.copy_location(ast.Try(body=[inner], handlers=tr.handlers, orelse=[], finalbody=[]), tr)
+                return self.s_Try(outer, st)
         # two-statement evaluate idiom:  if callable(v): v = v(context)
         idi = self._callable_idiom(node, st)
         if idi:
